@@ -91,6 +91,9 @@ type session struct {
 	closed   bool
 	evSeen   int // events already attributed
 	erSeen   int
+	report   func(prop, sig, what string, detail map[string]interface{})
+	lastOps  []string // op lines of this session (for replays)
+	faithful bool     // every injected record is one the real kernel would have produced here
 }
 
 func errClass(err error) string {
@@ -282,6 +285,75 @@ func safeCall(f func() error) (ret string) {
 	return errClass(f())
 }
 
+// ---- monitors: the property's own statement evaluated on the implementation ------
+
+// monitorRaw: C10 — Errors carries exactly one ErrEventOverflow per overflow marker and nothing else.
+func (s *session) monitorRaw(buf []byte, evs []fsnotify.Event, errs []error, op string) {
+	if s.report == nil {
+		return
+	}
+	overflows := 0
+	for off := 0; off+16 <= len(buf); {
+		mask := binary.LittleEndian.Uint32(buf[off+4:])
+		l := int(binary.LittleEndian.Uint32(buf[off+12:]))
+		if mask&inQOverflow != 0 {
+			overflows++
+		}
+		off += 16 + l
+	}
+	got := 0
+	for _, e := range errs {
+		if errors.Is(e, fsnotify.ErrEventOverflow) {
+			got++
+		} else {
+			s.report("C10", "C10:error-on-benign-history:"+errClass(e), "a value other than ErrEventOverflow was delivered on Errors: "+errClass(e),
+				map[string]interface{}{"op": op, "error": e.Error()})
+		}
+	}
+	if got != overflows {
+		s.report("C10", "C10:overflow-count", fmt.Sprintf("%d overflow markers but %d ErrEventOverflow", overflows, got),
+			map[string]interface{}{"op": op})
+	}
+	for _, e := range evs {
+		if e.Op == 0 {
+			s.report("C02", "C02:empty-op", "event with empty operation set", map[string]interface{}{"op": op, "event": e.String()})
+		}
+	}
+}
+
+// monitorTables: C12 (one direction, valid in injected mode): no kernel mark without a table entry,
+// and both tables describe the same set of watches; C04: WatchList has no duplicates.
+func (s *session) monitorTables(op string) {
+	if s.report == nil {
+		return
+	}
+	snap := fsnotify.VerifTables(s.w)
+	keys := map[uint32]bool{}
+	for _, we := range snap.Wd {
+		keys[we.Key] = true
+		if we.Key != we.Wd {
+			s.report("C12", "C12:key-field-mismatch", "wd table key differs from the entry's wd", map[string]interface{}{"op": op})
+		}
+	}
+	for _, m := range readFdinfo(s.realFd) {
+		// only meaningful when the injected stream never lied about a mark being gone
+		if s.faithful && !keys[m.wd] {
+			s.report("C12", "C12:orphan-kernel-mark", fmt.Sprintf("kernel mark wd=%d (ino %x) survives without a table entry", m.wd, m.ino),
+				map[string]interface{}{"op": op})
+		}
+	}
+	for _, pe := range snap.Path {
+		if !keys[pe.Wd] {
+			s.report("C12", "C12:dangling-path-entry", fmt.Sprintf("path table lists %q with wd=%d which is not in the wd table", pe.Path, pe.Wd),
+				map[string]interface{}{"op": op})
+		}
+	}
+	if len(snap.Path) != len(snap.Wd) {
+		s.report("C12", "C12:table-size-mismatch", fmt.Sprintf("path table has %d entries, wd table %d", len(snap.Path), len(snap.Wd)),
+			map[string]interface{}{"op": op})
+	}
+}
+
 // ---- operations ------------------------------------------------------------
 
 func (s *session) opAdd(r *rec, arg string, ops uint32, noFollow bool) {
@@ -329,22 +401,43 @@ func (s *session) opAdd(r *rec, arg string, ops uint32, noFollow bool) {
 	if noFollow {
 		nf = 1
 	}
-	r.emit("add", fmt.Sprintf("add %s %x %d k=%s marks=%s", hx(arg), ops, nf, k, marks),
-		fmtOut(ret, nil, nil)+" | "+stateStr(s.w))
+	op := fmt.Sprintf("add %s %x %d k=%s marks=%s", hx(arg), ops, nf, k, marks)
+	r.emit("add", op, fmtOut(ret, nil, nil)+" | "+stateStr(s.w))
+	if ret == "PANIC" && s.report != nil {
+		s.report("C04", "C04:add-panic", "Add panicked", map[string]interface{}{"op": op})
+	}
+	s.monitorTables(op)
 }
 
 func (s *session) opRemove(r *rec, arg string) {
 	marks := s.marks()
 	ret := safeCall(func() error { return s.w.Remove(arg) })
-	r.emit("remove", fmt.Sprintf("remove %s marks=%s", hx(arg), marks), fmtOut(ret, nil, nil)+" | "+stateStr(s.w))
+	op := fmt.Sprintf("remove %s marks=%s", hx(arg), marks)
+	listed := false
+	for _, p := range s.w.WatchList() {
+		if p == filepath.Clean(arg) {
+			listed = true
+		}
+	}
+	_ = listed
+	r.emit("remove", op, fmtOut(ret, nil, nil)+" | "+stateStr(s.w))
+	if s.report != nil {
+		if ret == "PANIC" {
+			s.report("C04", "C04:remove-panic", "Remove panicked (nil dereference on a dangling path-table entry)", map[string]interface{}{"op": op})
+		}
+	}
+	s.monitorTables(op)
 }
 
 func (s *session) opWatchList(r *rec) {
 	l := s.w.WatchList()
 	sort.Strings(l)
 	var hs []string
-	for _, p := range l {
+	for i, p := range l {
 		hs = append(hs, hx(p))
+		if i > 0 && l[i-1] == p && s.report != nil {
+			s.report("C04", "C04:watchlist-duplicate", "WatchList shows a path twice", map[string]interface{}{"path": p})
+		}
 	}
 	r.emit("watchlist", "watchlist", "L "+strings.Join(hs, ";"))
 }
@@ -356,7 +449,9 @@ func (s *session) opRaw(r *rec, buf []byte) bool {
 	if !ok {
 		ans += " | BARRIER-TIMEOUT"
 	}
-	r.emit("raw", fmt.Sprintf("raw %s marks=%s", hex.EncodeToString(buf), marks), ans)
+	op := fmt.Sprintf("raw %s marks=%s", hex.EncodeToString(buf), marks)
+	r.emit("raw", op, ans)
+	s.monitorRaw(buf, evs, errs, op)
 	return ok
 }
 
@@ -565,6 +660,19 @@ func runInject(r *rec, g *rng, tier, what, replay, out string, extra map[string]
 		s := newSession(root, bufsz)
 		s.sentinel = filepath.Join(root, ".sentinel")
 		startSeq := r.seq
+		seen := map[string]bool{}
+		s.report = func(prop, sig, what string, detail map[string]interface{}) {
+			if seen[sig] {
+				return
+			}
+			seen[sig] = true
+			detail["session"] = si
+			detail["seed"] = base
+			detail["tier"] = tier
+			detail["first_seq"] = startSeq + 1
+			b, _ := json.Marshal(map[string]interface{}{"property": prop, "signature": sig, "what": what, "detail": detail})
+			mon.Write(append(b, '\n'))
+		}
 		r.emit("reset", fmt.Sprintf("reset session=%d bufsz=%d", si, bufsz), "ok")
 		s.opAdd(r, s.sentinel, 0x1f, false)
 		if wd, ok := s.wdOf(s.sentinel, false); ok {
@@ -572,7 +680,13 @@ func runInject(r *rec, g *rng, tier, what, replay, out string, extra map[string]
 		} else {
 			check(fmt.Errorf("sentinel watch failed"))
 		}
-		runSession(r, sg, s, u, steps, mon, si, base, tier, startSeq)
+		if si < len(scripts) {
+			s.faithful = true
+			scripts[si](r, s, u)
+			s.opWatchList(r)
+		} else {
+			runSession(r, sg, s, u, steps, mon, si, base, tier, startSeq)
+		}
 		s.close()
 		os.Chdir(cwd)
 		os.RemoveAll(root)
@@ -627,6 +741,61 @@ func runSession(r *rec, g *rng, s *session, u *universe, steps int, mon *os.File
 				}
 				r.notes["fs:unlink"]++
 			}
+		case c < 50: // retarget a symlink: the listed path now names another file
+			if g.chance(50) {
+				l := filepath.Join(u.root, "l0")
+				os.Remove(l)
+				os.Symlink([]string{"d0", "d1", "dir1"}[g.intn(3)], l)
+			} else {
+				l := filepath.Join(u.root, "lf")
+				os.Remove(l)
+				os.Symlink(filepath.Join(u.root, []string{"f0", "f1", "d1/z"}[g.intn(3)]), l)
+			}
+			r.notes["fs:retarget"]++
+		case c < 56: // burst of moves: pairs, unmatched move-outs, interleaved halves (ring wrap-around)
+			snap := fsnotify.VerifTables(s.w)
+			var wds []uint32
+			for _, x := range snap.Wd {
+				if x.Key != s.sentWd {
+					wds = append(wds, x.Key)
+				}
+			}
+			if len(wds) == 0 {
+				continue
+			}
+			n := 1 + g.intn(25)
+			var buf []byte
+			var pending []rawRec
+			for j := 0; j < n; j++ {
+				ck := 5000 + uint32(len(cookies))
+				cookies = append(cookies, ck)
+				from := rawRec{wd: wds[g.intn(len(wds))], mask: inMovedFrom, cookie: ck, name: kernelPad(fmt.Sprintf("mv%d", ck))}
+				to := rawRec{wd: wds[g.intn(len(wds))], mask: inMovedTo, cookie: ck, name: kernelPad(fmt.Sprintf("to%d", ck))}
+				buf = append(buf, from.bytes()...)
+				switch g.intn(6) {
+				case 0: // moved out of watched territory: no second half
+				case 1: // second half delayed behind later moves
+					pending = append(pending, to)
+				default:
+					buf = append(buf, to.bytes()...)
+				}
+				if len(pending) > 0 && g.chance(40) {
+					buf = append(buf, pending[0].bytes()...)
+					pending = pending[1:]
+				}
+				if g.chance(15) { // split the burst over several reads
+					if !s.opRaw(r, buf) {
+						return
+					}
+					buf = nil
+				}
+			}
+			for _, p := range pending {
+				buf = append(buf, p.bytes()...)
+			}
+			if len(buf) > 0 && !s.opRaw(r, buf) {
+				return
+			}
 		default: // a datagram of 1..k synthetic records
 			k := 1
 			switch g.intn(10) {
@@ -662,4 +831,100 @@ func runSession(r *rec, g *rng, s *session, u *universe, steps int, mon *os.File
 		}
 	}
 	s.opWatchList(r)
+}
+
+// ---- corpus: hand-picked histories, run first --------------------------------
+
+func (s *session) rawRecs(r *rec, recs ...rawRec) {
+	var buf []byte
+	for _, x := range recs {
+		buf = append(buf, x.bytes()...)
+	}
+	s.opRaw(r, buf)
+}
+
+func (s *session) wdFor(path string) uint32 {
+	for _, pe := range fsnotify.VerifTables(s.w).Path {
+		if pe.Path == path {
+			return pe.Wd
+		}
+	}
+	return 0
+}
+
+var scripts = []func(r *rec, s *session, u *universe){
+	// F1: rename-then-delete of a watched file: MOVE_SELF handled after the kernel dropped the mark
+	func(r *rec, s *session, u *universe) {
+		f := filepath.Join(u.root, "f1")
+		s.opAdd(r, f, 0x1f, false)
+		wd := s.wdFor(f)
+		os.Rename(f, f+".moved")
+		os.Remove(f + ".moved")
+		s.rawRecs(r, rawRec{wd: wd, mask: inMoveSelf})
+		s.rawRecs(r, rawRec{wd: wd, mask: inAttrib}, rawRec{wd: wd, mask: inDeleteSelf}, rawRec{wd: wd, mask: inIgnored})
+	},
+	// F2(a): a listed symlink re-pointed to an inode that is listed under another path
+	func(r *rec, s *session, u *universe) {
+		s.opAdd(r, "l0", 0x1f, false)
+		s.opAdd(r, "d1", 0x1f, false)
+		os.Remove(filepath.Join(u.root, "l0"))
+		os.Symlink("d1", filepath.Join(u.root, "l0"))
+		s.opAdd(r, "l0", 0x1f, false)
+		s.opWatchList(r)
+		s.opRemove(r, "l0")
+		s.opRemove(r, "d1")
+	},
+	// F2(b): re-Add of a path whose previous inode is kept alive by a hard link
+	func(r *rec, s *session, u *universe) {
+		f := filepath.Join(u.root, "f0")
+		s.opAdd(r, f, 0x1f, false)
+		os.Remove(f)
+		os.WriteFile(f, []byte("again"), 0o644)
+		s.opAdd(r, f, 0x1f, false)
+		s.opRemove(r, f)
+		s.opWatchList(r)
+	},
+	// stale entry re-add (#678/#686): file deleted and recreated, re-Add before IGNORED is handled
+	func(r *rec, s *session, u *universe) {
+		f := filepath.Join(u.root, "f1")
+		s.opAdd(r, f, 0x1f, false)
+		wd := s.wdFor(f)
+		os.Remove(f)
+		os.WriteFile(f, []byte("again"), 0o644)
+		s.opAdd(r, f, 0x1f, false)
+		s.rawRecs(r, rawRec{wd: wd, mask: inAttrib}, rawRec{wd: wd, mask: inDeleteSelf}, rawRec{wd: wd, mask: inIgnored})
+		s.opRemove(r, f)
+	},
+	// rename pair, unmatched move-outs, > 10 moves, zero cookie
+	func(r *rec, s *session, u *universe) {
+		s.opAdd(r, "d0", 0x1f, false)
+		s.opAdd(r, "d1", 0x1f, false)
+		a, b := s.wdFor("d0"), s.wdFor("d1")
+		s.rawRecs(r, rawRec{wd: a, mask: inMovedFrom, cookie: 7, name: kernelPad("old")}, rawRec{wd: b, mask: inMovedTo, cookie: 7, name: kernelPad("new")})
+		for i := 0; i < 12; i++ {
+			s.rawRecs(r, rawRec{wd: a, mask: inMovedFrom, cookie: uint32(100 + i), name: kernelPad(fmt.Sprintf("out%d", i))})
+		}
+		s.rawRecs(r, rawRec{wd: b, mask: inMovedTo, cookie: 7, name: kernelPad("late")}, rawRec{wd: b, mask: inMovedTo, cookie: 111, name: kernelPad("recent")},
+			rawRec{wd: b, mask: inCreate, name: kernelPad("plain")}, rawRec{wd: b, mask: inMovedTo, cookie: 0, name: kernelPad("zero")})
+	},
+	// 25 consecutive paired moves: every Create must carry its own old name (ring wrap-around)
+	func(r *rec, s *session, u *universe) {
+		s.opAdd(r, "d0", 0x1f, false)
+		a := s.wdFor("d0")
+		for i := 0; i < 25; i++ {
+			s.rawRecs(r, rawRec{wd: a, mask: inMovedFrom, cookie: uint32(900 + i), name: kernelPad(fmt.Sprintf("f%d", i))},
+				rawRec{wd: a, mask: inMovedTo, cookie: uint32(900 + i), name: kernelPad(fmt.Sprintf("f%d", i+1))})
+		}
+	},
+	// DELETE_SELF with the parent listed / not listed
+	func(r *rec, s *session, u *universe) {
+		s.opAdd(r, "d0/x", 0x1f, false)
+		s.opAdd(r, "d0", 0x1f, false)
+		s.opAdd(r, "f1", 0x1f, false)
+		x, d, f := s.wdFor("d0/x"), s.wdFor("d0"), s.wdFor("f1")
+		os.Remove(filepath.Join(u.root, "d0/x"))
+		os.Remove(filepath.Join(u.root, "f1"))
+		s.rawRecs(r, rawRec{wd: d, mask: inDelete, name: kernelPad("x")}, rawRec{wd: x, mask: inDeleteSelf}, rawRec{wd: x, mask: inIgnored},
+			rawRec{wd: f, mask: inDeleteSelf}, rawRec{wd: f, mask: inIgnored})
+	},
 }
